@@ -4150,7 +4150,11 @@ class _SubTensorDict(TensorDictBase):
 
     def masked_fill_(self, mask: Tensor, value: float | bool) -> T:
         for key, item in self.items():
-            self.set_(key, torch.full_like(item, value))
+            mask_expand = expand_as_right(mask, item)
+            if _is_tensor_collection(type(item)):
+                item.masked_fill_(mask_expand, value)
+            else:
+                self.set_(key, item.masked_fill(mask_expand, value))
         return self
 
     def masked_fill(self, mask: Tensor, value: float | bool) -> T:
